@@ -76,8 +76,8 @@ JudgeAdd(e) ==
   ELSE "ok"
 
 JudgeUpdate(e) ==
-  IF rnd = <<>> \/ \E j \in 1..C : Qs(rnd)[j] = 0 THEN "X:degenerate-round"
-  ELSE IF e.res # "val" THEN "P:raised"
+  IF e.res # "val" THEN "P:raised"
+  ELSE IF rnd = <<>> \/ \E j \in 1..C : Qs(rnd)[j] = 0 THEN "X:degenerate-round"
   ELSE "ok"
 
 JudgeGen(e) ==
@@ -101,10 +101,11 @@ JudgeRun(e) ==
       n == Len(data)
       r == [n |-> n, q |-> Qs(data)]
       res == Stack(e.rsums)
-  IN IF data = <<>> \/ \E j \in 1..C : r.q[j] = 0 THEN "X:degenerate-round"
-     ELSE IF e.res # "val" THEN "P:raised"
+  IN IF e.res # "val" THEN "P:raised"
+     ELSE IF data = <<>> \/ \E j \in 1..C : r.q[j] = 0 THEN "X:degenerate-round"
      ELSE IF ~ScaleOK(e.sc2, data) THEN "P:scale"
      ELSE IF e.shape # <<Len(res)>> \/ Len(e.v) # Len(res) THEN "P:one-per-row"
+     ELSE IF \E i \in 1..Len(res) : \A k \in 1..n : data[k] # res[i] THEN "P:result-row-not-simulated"
      ELSE IF \E i \in 1..Len(res) : ~(IsNum(e.v[i][1]) /\ e.v[i][1] >= 0 /\ ScaledOK(e.sq[i][1], r, res[i])) THEN "P:newest"
      ELSE "ok"
 
